@@ -99,6 +99,88 @@ func c19(r *Report, s *Sem) {
 		fmt.Sprintf("%d exit(s) %v where the receiver is gone but state==established and the transport still counts as connected: the client keeps handing out a deaf channel and its listener spins on the closed done signal", len(bad), bad))
 	// the stop routine is reachable only from terminal arms / Close (so 'context cancelled' really means requested): C13.R2
 
+	// ---- R6: the lifetime lock
+	R6 := r.Rule("R6", "the channel-lifetime lock is released only by the caller that took it: every release (receive from the lock channel, usually deferred) is reachable only after that function's own acquire succeeded — a release registered before the acquire's error check lets a caller whose context ended while queueing steal the token of the goroutine that is rebuilding, which then blocks forever in its own release (a deaf listener, and Close hangs)", 2)
+	if cl := p.Type("Client"); cl != nil {
+		var lockF *types.Var
+		if st, ok := cl.Underlying().(*types.Struct); ok {
+			for i := 0; i < st.NumFields(); i++ {
+				if ch, ok := st.Field(i).Type().Underlying().(*types.Chan); ok {
+					if es, ok := ch.Elem().Underlying().(*types.Struct); ok && es.NumFields() == 0 {
+						lockF = st.Field(i)
+					}
+				}
+			}
+		}
+		if lockF == nil {
+			r.Undecided(R6, "anchor-unresolved:Client lifetime lock", "-", "no chan struct{} field")
+		} else {
+			onLock := func(v ssa.Value) bool { return pathOf(v).Last() == lockF }
+			for _, fn := range p.LimeFuncs() {
+				if fn.Parent() != nil {
+					continue
+				}
+				// release sites of fn: direct receives, and defers of a literal that receives
+				var releases []ssa.Instruction
+				eachInstr(fn, func(in ssa.Instruction) {
+					switch x := in.(type) {
+					case *ssa.UnOp:
+						if x.Op == token.ARROW && onLock(x.X) {
+							releases = append(releases, in)
+						}
+					case *ssa.Defer:
+						if mc, ok := x.Call.Value.(*ssa.MakeClosure); ok {
+							eachInstr(mc.Fn.(*ssa.Function), func(in2 ssa.Instruction) {
+								if u, ok := in2.(*ssa.UnOp); ok && u.Op == token.ARROW && onLock(u.X) {
+									releases = append(releases, in)
+								}
+							})
+						}
+					}
+				})
+				for _, rel := range releases {
+					unheld := false
+					walkFrom(fn, nil, walkOpts{seeDefers: true,
+						barrier: func(in ssa.Instruction) bool {
+							if in == rel {
+								unheld = true
+								return true
+							}
+							if sd, ok := in.(*ssa.Send); ok && onLock(sd.Chan) {
+								return true // acquired (blocking send)
+							}
+							return false
+						},
+						cutEdge: func(from *ssa.BasicBlock, k int) bool {
+							ifi := ifOf(from)
+							if ifi == nil {
+								return false
+							}
+							cd := condOn(ifi, k == 0)
+							if cd.Op != token.EQL {
+								return false
+							}
+							ex, ok := stripConv(cd.X).(*ssa.Extract)
+							if !ok || ex.Index != 0 {
+								return false
+							}
+							sel, ok := ex.Tuple.(*ssa.Select)
+							if !ok {
+								return false
+							}
+							idx, ok := constInt(cd.Y)
+							if !ok || int(idx) >= len(sel.States) {
+								return false
+							}
+							stt := sel.States[idx]
+							return stt.Dir == types.SendOnly && onLock(stt.Chan) // the arm on which the token was put in
+						}})
+					r.Check(R6, "func "+fnName(fn)+" / release of the lifetime lock only after its own acquire", p.instrPos(rel), !unheld, "a path reaches this release (or its defer) without having put the token in")
+				}
+			}
+		}
+	}
+
 	R5 := r.Rule("R5", "closing flips the transport to disconnected: Transport.Close implementations close the underlying connection unless the handle is nil and clear the handle whatever the close returned (R1's 'passes Transport.Close' relies on it), and channel.Close always reaches Transport.Close", 4)
 	checkCloseReallyCloses(r, s, R5)
 
@@ -109,6 +191,12 @@ func c19(r *Report, s *Sem) {
 	if gob == nil || build == nil || chanF == nil {
 		r.Undecided(R2, "anchor-unresolved:Client.getOrBuildChannel", "-", "not found")
 		return
+	}
+	// the builder itself hands out only an established channel: a handshake answered with failed/finished returns no
+	// error, and a builder that passes such a channel on makes the rebuild loop return at once with a dead channel — no
+	// back-off, and the listener spins
+	if est := p.Method("ClientChannel", "EstablishSession"); est != nil {
+		checkBuilderPublishesEstablished(r, s, R2, build, est)
 	}
 	var buildCall *ssa.Call
 	for _, f := range withAnon(gob) {
